@@ -34,7 +34,10 @@ func optimalWidth(widths map[int]int, plonk bool) int {
 	return bestW
 }
 
+var misalignedSeen = map[string]bool{}
+
 func runC02(r *Run) {
+	misalignedSeen = map[string]bool{}
 	r.Functions = []string{"verifier.(*VerifierCircuit).Define", "verifier.(*CircuitFixed).Define", "goldilocks.New / gnarkRangeCheckerSelector", "goldilocks.(*Chip).{Reduce,ReduceWithMaxBits,MulAdd,RangeCheck,Inverse} (honest-fit direction)", "goldilocks.(*Chip).checkCollected / getOptimalBasewidth", "goldilocks.{MulAddHint,ReduceHint,InverseHint,SplitLimbsHint} (executed on the honest values)"}
 	insts := instancesFor(r, []int{1, 2}, []int{1, 2, 4, 28}, true)
 	widthsInUse := map[uint64]bool{}
@@ -86,7 +89,19 @@ func runC02(r *Run) {
 			sort.Ints(misaligned)
 			note := fmt.Sprintf("commit checker: cost-optimal limb width %d (R1CS model) / %d (PLONK model); widths not aligned to 16: %v", ow, owp, misaligned)
 			if len(misaligned) > 0 {
-				r.Infra("%s/%s: range-check widths %v are not multiples of 16: the commit-based configuration refuses the circuit", in.Name, wr, misaligned)
+				// the commit-based checker refuses widths that are not multiples of its 16-bit limb: confirm on
+				// the real circuit (full proof: restricted shapes are refused for their limb width anyway)
+				site := fmt.Sprintf("range-check width not aligned to the commit checker's limb (%s wrapper)", wr)
+				if !misalignedSeen[site] {
+					misalignedSeen[site] = true
+					cr := &circuitReplay{Kind: "circuit", Wrapper: wr, Instance: in.Base, K: 0, Expect: "rejected", Commit: true}
+					acc, msg := runCircuitReplay(cr, r.Repo)
+					if !acc && strings.Contains(msg, "aligned") {
+						r.addViolationWithReplay(site, fmt.Sprintf("%s/%s: range-check widths %v are not multiples of 16; the circuit built with the commitment-based range checker refuses the valid proof (%s)", in.Name, wr, misaligned, short(msg, 80)), toMap(cr), "real circuit (test.IsSolved, commitment-based checker) rejects the unmodified valid proof")
+					} else {
+						r.Infra("%s/%s: range-check widths %v are not multiples of 16, but the real circuit under the commit checker says accepted=%v %s", in.Name, wr, misaligned, acc, short(msg, 80))
+					}
+				}
 			}
 			if ow != 16 {
 				if in.K == 0 {
